@@ -650,6 +650,57 @@ pub fn replay_case(
     st.cases += 1;
 }
 
+/// C05 / C06 (and C04 for local keys): one authentic token per protocol presented under `n` wrong values
+/// of ONE parameter (footer, implicit assertion) that differ from the right one in varied ways - a
+/// comparison that lets some fraction of wrong values through (a folded checksum, a truncated compare)
+/// shows only against many of them.  The expectation is the model's: a presentation that does not match the
+/// origin is rejected before the content is used.
+pub fn wide_sweep(prop: &str, n: usize, r: &mut StdRng, st: &mut Stats) {
+    for pr in Proto::all() {
+        if prop == "C06" && !pr.has_assertion() {
+            continue;
+        }
+        let slow = pr.public && (pr.v == 1 || pr.v == 3);
+        let n = if slow { n / 8 } else { n };
+        let km = conc::random_keymat(r, 0);
+        let nonce = conc::random_bytes32(r);
+        let msg = conc::json_message(r, 24, 0);
+        let (f, a) = ("kid-7", "tenant:42");
+        let has_a = pr.has_assertion();
+        let tok = match core_mint(pr, &km, &nonce, &msg, Some(f), if has_a { Some(a) } else { None }) {
+            Out::Ok(t) => t,
+            _ => continue,
+        };
+        for i in 0..n {
+            let wrong = match i % 5 {
+                0 => format!("{}{}", if prop == "C05" { "kid-" } else { "tenant:" }, i),
+                1 => format!("{}{}", if prop == "C05" { f } else { a }, i),
+                2 => conc::message(r, 1 + i % 40, i),
+                3 => format!("{}", i),
+                _ => format!("{}{}", i, if prop == "C05" { f } else { a }),
+            };
+            if (prop == "C05" && wrong == f) || (prop == "C06" && wrong == a) {
+                continue;
+            }
+            let (pf, pa) = if prop == "C05" { (wrong.as_str(), a) } else { (f, wrong.as_str()) };
+            let out = core_present(pr, &tok, &km, Some(pf), if has_a { Some(pa) } else { None });
+            st.presentations += 1;
+            st.pre_seen += 1;
+            if out.is_ok() || matches!(out, Out::Panic(_)) {
+                st.nviol += 1;
+                if st.violations.len() < 20 {
+                    st.violations.push(Violation {
+                        props: vec![prop.to_string()],
+                        what: format!("token bound to footer {:?} / assertion {:?} accepted under footer {:?} / assertion {:?} ({}): {}", f, a, pf, pa, pr.name(), out.class()),
+                        replay: json!({"kind": "wide-sweep", "pr": pr.name(), "token": tok, "key": hex::encode(km.sym), "footer": f, "assertion": a,
+                                       "presented_footer": pf, "presented_assertion": pa, "observed": format!("{}:{}", out.class(), out.detail())}),
+                    });
+                }
+            }
+        }
+    }
+}
+
 pub fn load_cases(path: &str) -> Vec<CaseRec> {
     let text = std::fs::read_to_string(path).expect("cases file");
     let mut v = vec![];
